@@ -732,9 +732,11 @@ func (s *Serializer) decBlock(br *bytes.Buffer, dst []byte, wg *sync.WaitGroup, 
 			defer wg.Done()
 			buf := bytes.NewBuffer(compressed)
 			dec := s2Readers.Get().(*s2.Reader)
+			verifPool("Get", "s2Readers", dec)
 			dec.Reset(buf)
 			_, err := io.ReadFull(dec, dst)
 			dec.Reset(nil)
+			verifPool("Put", "s2Readers", dec)
 			s2Readers.Put(dec)
 			*dstErr = err
 		}()
@@ -802,9 +804,11 @@ func encBlock(mode byte, buf []byte, fast bool) (io.Writer, encodedResult) {
 		if fast {
 			enc = s2FastWriters.Get().(*s2.Writer)
 			put = &s2FastWriters
+			verifPool("Get", "s2FastWriters", enc)
 		} else {
 			enc = s2Writers.Get().(*s2.Writer)
 			put = &s2Writers
+			verifPool("Get", "s2Writers", enc)
 		}
 		enc.Reset(dst)
 		return enc, func() (i []byte, err error) {
@@ -813,11 +817,13 @@ func encBlock(mode byte, buf []byte, fast bool) (io.Writer, encodedResult) {
 				return nil, err
 			}
 			enc.Reset(nil)
+			verifPool("Put", "s2", enc)
 			put.Put(enc)
 			return dst.Bytes(), nil
 		}
 	case blockTypeZstd:
 		enc := zEncFast.Get().(*zstd.Encoder)
+		verifPool("Get", "zEncFast", enc)
 		enc.Reset(dst)
 		return enc, func() (i []byte, err error) {
 			err = enc.Close()
@@ -825,6 +831,7 @@ func encBlock(mode byte, buf []byte, fast bool) (io.Writer, encodedResult) {
 				return nil, err
 			}
 			enc.Reset(nil)
+			verifPool("Put", "zEncFast", enc)
 			zEncFast.Put(enc)
 			return dst.Bytes(), nil
 		}
